@@ -14,6 +14,7 @@ type Part struct {
 	Harness string
 	Func    string
 	Race    bool // also run this part in the -race binary
+	OneProc bool // this part runs under the scheduler: its workers get GOMAXPROCS=1 (when the check as a whole does not ask for it)
 }
 
 type Check struct {
@@ -166,10 +167,10 @@ var checks = map[string]*Check{
 		LevelText:   "Every program of the emit/set/fail language up to the length bound is executed as action (3 positions) and as guard, under three error-routing modes, through Spec.Walk and through sio.Crew.ProcessMsg; the emitted messages must be exactly those of the successfully completed actions, in order. The mcrew host is driven with a chain of emitting actions under every step limit: what it publishes must be what the strides taken emitted.",
 		LevelNote:   "Trusted: action-language model; cancellation is delivered through the harness context at a fixed tick (the exact interruption instant inside goja is not controlled, and unobservable here).",
 		Assumptions: commonAssumptions},
-	"C07": {ID: "C07", Harness: "core", Func: "C07", Category: "exploration", QuickDeadline: 240, ThoroughDeadline: 1500, CrashIsViolation: true,
+	"C07": {ID: "C07", Parts: []Part{{Harness: "core", Func: "C07"}, {Harness: "mcrew", Func: "C07mcrew", OneProc: true}, {Harness: "sio", Func: "C07sio"}}, Category: "exploration", QuickDeadline: 240, ThoroughDeadline: 1500, CrashIsViolation: true,
 		Engine: "E1", DesignRef: "6/C07",
 		Technique:   "conjunction-bounded exhaustive enumeration over independent hostile-input dimensions (all combinations of at most k non-default dimensions) with a panic trap and hang horizon around every load/compile/step/walk, plus reference comparison where defined",
-		LevelText:   "Every combination of up to k hostile dimensions (spec document defects, state, message, control, props, action behaviour, guard behaviour, error routing) in five representations is loaded, compiled and processed on the real code under a panic trap; failures must surface as errors or error states equal to the reference's.",
+		LevelText:   "Every combination of up to k hostile dimensions (spec document defects, state, message, control, props, action behaviour, guard behaviour, error routing) in five representations is loaded, compiled and processed on the real code under a panic trap; failures must surface as errors or error states equal to the reference's. The same hostile inputs are also sent to the hosts the way clients send them: to mcrew as lines of Service.Listener's text protocol (every combination of specification file, machine state, message incl. one per action behaviour, and control setting, with and without -v), to sio as lines on the input of the real sio.Stdio processed by the real Crew.Loop (messages, captain requests and timers requests of every malformed shape, alone and in pairs): no panic, no worker death, every line answered, the host still in service afterwards.",
 		LevelNote:   "Trusted: panic trap (recover) and the worker-crash detector for fatal errors; reference walk/step. Only the listed hostile values are covered; a crash that needs more than k simultaneous hostile dimensions is out of reach.",
 		Assumptions: commonAssumptions},
 	"C06": {ID: "C06", Harness: "core", Func: "C06", Category: "exploration", QuickDeadline: 240, ThoroughDeadline: 1500,
